@@ -52,6 +52,7 @@ GEN_SPEC = {"items": [
     {"kind": "calls", "file": R, "func": "cluster.newClient", "as": "calls_newClient"},
     {"kind": "calls", "file": R, "func": "cluster.getClient", "as": "calls_getClient"},
     {"kind": "calls", "file": R, "func": "cluster.watch", "as": "calls_watch"},
+    {"kind": "calls", "file": "lib/discov/internal/statwatcher.go", "func": "stateWatcher.watch", "as": "calls_swatch"},
 ]}
 QUICK_N = 300
 THOROUGH_N = 5000
@@ -139,7 +140,7 @@ def _hist(rng, n_events=None, proviso=True, multi=None):
             continue
         r = rng.random()
         if nreloads < max_reloads and r < 0.12:
-            events.append({"t": "reload"})
+            events.append({"t": "reload", "fast": "after"} if rng.random() < 0.3 else {"t": "reload"})
             nreloads += 1
             continue
         if nsubs > 0 and rng.random() < p_cancel:
@@ -294,6 +295,20 @@ def real_family():
         X([SUB(), G, P("svc/1", "a"), OUT, D("svc/1", False), P("svc/2", "b", False), ON, D("svc/2")]),
         X([P("svc/1", "a"), G, SUB(), SUB(True), P("svc/2", "a"), OUT, D("svc/2", False), ON, D("svc/1")]),
         X([G, OUT, P("svc/1", "a", False), ON, SUB(), OUT, P("svc/2", "b", False), D("svc/1", False), ON, SUB()]),
+    ]
+
+
+def fast_reconnect_family():
+    """(r8-1) the connection fails and is Ready again before the state watcher's next WaitForStateChange (which, like grpc's,
+    returns at once when the state differs from the one passed): the reload still runs, exactly once."""
+    H = lambda ev, pf=None: dict({"kind": "hist", "prefix": (pf or ["svc"])[0], "events": ev}, **({"prefixes": pf} if pf else {}))
+    FR = {"t": "reload", "fast": "after"}
+    return [
+        H([SUB(), P("svc/1", "a"), D("svc/1", False), P("svc/2", "b", False), FR, P("svc/3", "c"), D("svc/2")]),
+        H([SUB(True), P("svc/1", "a"), P("svc/2", "a", False), FR, D("svc/1", False), FR, RL, D("svc/2")]),
+        H([SUB(p=0), SUB(p=1), P("svc/1", "a"), P("k/1", "b", False), D("svc/1", False), FR, P("k/2", "c"), SUB(p=0),
+           P("svc/2", "a", False), FR], ["svc", "k"]),
+        H([SUB(), RL, P("svc/1", "a", False), FR, FR, D("svc/1", False), RL, P("svc/2", "b", False), FR]),
     ]
 
 
@@ -461,7 +476,7 @@ def resolver_family():
 
 def generate(rng, tier, n):
     cases = (list(directed()) + resolver_family() + late_join_family() + duplicate_family() +
-             publisher_family() + multi_prefix_family() + batch_family() + failing_get_family() + cancel_family() + real_family())
+             publisher_family() + multi_prefix_family() + batch_family() + failing_get_family() + cancel_family() + real_family() + fast_reconnect_family())
     nres = max(6, n // 12)
     for _ in range(nres):
         cases.append(_res(rng))
@@ -481,7 +496,7 @@ def generate(rng, tier, n):
 
 def search(rng, problems):
     out = (list(directed()) + resolver_family() + late_join_family() + duplicate_family() +
-           publisher_family() + multi_prefix_family() + batch_family() + failing_get_family() + cancel_family() + real_family())
+           publisher_family() + multi_prefix_family() + batch_family() + failing_get_family() + cancel_family() + real_family() + fast_reconnect_family())
     out += [_res(rng) for _ in range(20)] + [_pub(rng) for _ in range(20)]
     for _ in range(60):
         out.append(_hist(rng, n_events=rng.randint(4, 10)))
@@ -898,6 +913,8 @@ def bucket(case, obs):
         out.append("shared-value")
     if any(e["t"] == "batch" for e in ev):
         out.append("has-batch")
+    if any(e["t"] == "reload" and e.get("fast") for e in ev):
+        out.append("fast-reconnect")
     if len(case.get("prefixes") or []) > 1:
         out.append("prefixes=%d" % len(case["prefixes"]))
     if any(st.get("stuck") for pr in (obs.get("proj") or []) for st in (pr.get("steps") or [])):
